@@ -1,5 +1,6 @@
 import TvCore.Props.C09
 import TvCore.Props.C09Fanout
+import TvCore.Props.C09World
 #print axioms TV.C09.receive_sound
 #print axioms TV.C09.drop_isolated
 #print axioms TV.C09.at_most_one
@@ -21,3 +22,17 @@ import TvCore.Props.C09Fanout
 #print axioms TV.C09.send_sound
 #print axioms TV.C09.setBcast_flag
 #print axioms TV.C09.setMloop_flag
+#print axioms TV.C09.tryrecv_returns_queue_head
+#print axioms TV.C09.dropped_disturbs_nothing
+#print axioms TV.C09.dropped_disturbs_nothing_loopback
+#print axioms TV.C09.dropped_leaves_table
+#print axioms TV.C09.recv_was_sent
+#print axioms TV.C09.sentLog_sound
+#print axioms TV.C09.recv_at_most_once
+#print axioms TV.C09.recv_at_most_once_fresh
+#print axioms TV.C09.recv_at_most_once_socket
+#print axioms TV.C09.turn_queues
+#print axioms TV.C09.loDeliver_queues
+#print axioms TV.C09.handed_datagram_queued
+#print axioms TV.C09.healthy_exactly_once
+#print axioms TV.C09.witness_phantom_loopback
